@@ -29,6 +29,15 @@ const N_RT: usize = 3;
 const CALL_NAMES: &[&str] = &[
     "abs", "length", "not_null", "map", "type", "to_array", "f0", "g1", "Abs", "abs_", "ABS", "h",
 ];
+/// Families of longer names: equal length and a long common suffix or prefix (a key that
+/// keeps only part of the name confuses them), and classic equal-hash pairs of the common
+/// 32-bit FNV-1a hash (a key that is only a hash confuses those).
+const LONG_NAMES: &[&str] = &[
+    "north_region_total_sum", "south_region_total_sum", "v1_customer_display_name", "v2_customer_display_name",
+    "customer_display_name_v1", "customer_display_name_v2", "a_very_long_function_name_with_many_words_a",
+    "a_very_long_function_name_with_many_words_b", "costarring", "liquid", "declinate", "macallums", "altarage", "zinke",
+];
+
 /// names only ever looked up / registered, never called (not valid identifiers or irrelevant)
 const ODD_NAMES: &[&str] = &[" abs", "abs ", "", "keys", "nosuch", "LENGTH", "f0 ", "ab"];
 const BUILTINS: &[&str] = &[
@@ -734,10 +743,20 @@ fn gen_history(seed: u64) -> Vec<Op> {
     let mut r = Rng::new(seed);
     let nrt = 1 + r.below(N_RT);
     let nops = 5 + r.below(36);
+    let mut bulk_done = false;
     // swarm: a subset of the name pool per history, so that collisions are frequent
     let mut names: Vec<&str> = CALL_NAMES.to_vec();
     r.shuffle(&mut names);
     names.truncate(3 + r.below(5));
+    // swarm: some histories use the long-name families, some register MANY names (tables
+    // grow, rehash, spill out of small inline storage)
+    if r.chance(1, 6) {
+        let k = 2 + r.below(5);
+        for _ in 0..k {
+            names.push(*r.pick(LONG_NAMES));
+        }
+    }
+    let many = r.chance(1, 12);
     let w_reg = 4 + r.below(6);
     let w_dereg = 1 + r.below(4);
     let w_builtins = r.below(3);
@@ -756,6 +775,34 @@ fn gen_history(seed: u64) -> Vec<Op> {
     }
     while ops.len() < nops {
         let rt = r.below(nrt);
+        if many && !bulk_done && ops.len() >= nops / 3 {
+            // a burst of 40-130 distinct names on one runtime, in the middle of the history
+            bulk_done = true;
+            let n = 40 + r.below(90);
+            for i in 0..n {
+                let name = format!("fn_{}", i);
+                have[rt].insert(name.clone());
+                ops.push(Op::Register {
+                    rt,
+                    name,
+                    f: FnSpec { id: next_id, sig: None, fail_on: None },
+                });
+                next_id += 1;
+            }
+            // and look a few of them up / call them / remove them again
+            for _ in 0..6 {
+                let name = format!("fn_{}", r.below(n));
+                match r.below(3) {
+                    0 => ops.push(Op::Get { rt, name }),
+                    1 => ops.push(Op::Call { rt, expr: format!("{}(a)", name), doc: DOCS[0].to_string() }),
+                    _ => {
+                        have[rt].remove(&name);
+                        ops.push(Op::Deregister { rt, name });
+                    }
+                }
+            }
+            continue;
+        }
         let mut x = r.below(total);
         let any_name = |r: &mut Rng, names: &[&str]| -> String {
             if r.chance(1, 8) {
@@ -969,6 +1016,16 @@ fn run_history(ops: &[Op], stats: &mut Stats, verbose: bool) -> RunOut {
         };
     }
 
+    let mentioned: BTreeSet<String> = ops
+        .iter()
+        .filter_map(|o| match o {
+            Op::Register { name, .. } | Op::Deregister { name, .. } | Op::Get { name, .. } => Some(name.clone()),
+            _ => None,
+        })
+        .collect();
+    if mentioned.len() > 48 {
+        stats.bump("probe.history_with_more_than_48_names");
+    }
     for (i, op) in ops.iter().enumerate() {
         stats.bump(&format!("op.{}", op.kind()));
         let line: String;
@@ -1200,9 +1257,24 @@ fn run_history(ops: &[Op], stats: &mut Stats, verbose: bool) -> RunOut {
         if verbose {
             out.log.push(format!("{:3} {}", i, line));
         }
-        // cross-invariant after every step: presence of every pool name
+        // cross-invariant after every step: presence of every pool name (and, every 8th
+        // step, of every name this history has ever mentioned)
+        if i % 8 == 7 || i + 1 == ops.len() {
+            for rt in 0..N_RT {
+                for name in mentioned.iter() {
+                    let real = rts[rt].get_function(name).is_some();
+                    let want = models[rt].map.contains_key(name.as_str());
+                    if real != want {
+                        viol!("registry-follows-history", i,
+                            "after op {} ({}): get_function({:?}) on runtime {} is {} but the operations so far leave it {}",
+                            i, op.kind(), name, rt, if real { "Some" } else { "None" },
+                            if want { "registered" } else { "unregistered" });
+                    }
+                }
+            }
+        }
         for rt in 0..N_RT {
-            for name in CALL_NAMES.iter().chain(ODD_NAMES.iter()) {
+            for name in CALL_NAMES.iter().chain(ODD_NAMES.iter()).chain(LONG_NAMES.iter()) {
                 let real = rts[rt].get_function(name).is_some();
                 let want = models[rt].map.contains_key(*name);
                 if real != want {
